@@ -114,6 +114,12 @@ def generate(rng, i, tier):
                 "policy": rng.choice([["collect"], ["collect", "fail", "print"], ["stop", "collect"], ["print"]]) if kind == "direct" and rng.random() < 0.4 else None,
             }
         )
+    for j in range(len(jobs)):
+        if rng.random() < 0.1:
+            # the job reads the file with ANOTHER dialect than the one it was written with (legal: the records then
+            # split differently); what an earlier job with the right dialect left behind must not matter
+            other = [d for d in ([",", '"'], [";", '"'], ["|", "'"]) if d != files[jobs[j]["file"]]["dialect"]]
+            jobs[j] = dict(jobs[j], read_as=rng.choice(other))
     for j in range(1, len(jobs)):
         if rng.random() < 0.12:
             # the file at that path is REPLACED (other records, maybe another header row) before the job runs
@@ -154,6 +160,10 @@ def reductions(sc):
             c = with_(sc)
             del c["jobs"][j]["rewrite"]
             yield c
+        if job.get("read_as"):
+            c = with_(sc)
+            del c["jobs"][j]["read_as"]
+            yield c
     for fi, f in enumerate(sc["files"]):
         for rows in gen.rows_reductions(f["rows"]):
             c = with_(sc)
@@ -187,7 +197,7 @@ def run_job(job, jn, dialects):
 
     path = f"src/f{job['file']}.csv"
     m = job["member"]
-    delim, quote = dialects[job["file"]]
+    delim, quote = job.get("read_as") or dialects[job["file"]]
     try:
         with ops.quiet():
             if job["kind"] in ("direct", "via", "via_shared"):
@@ -429,6 +439,7 @@ def execute(sc):
         out.probe("two jobs that differ only by blanks inside a string literal", any(ws_sibling(a["member"]) == b["member"] for a in jobs for b in jobs if a is not b))
         out.probe("file replaced between two jobs over the same path", False)
         out.probe("cache with half of an entry missing", False)
+        out.probe("one file read with two dialects in one process", any(a["file"] == b["file"] and (a.get("read_as") or None) != (b.get("read_as") or None) for a in jobs for b in jobs))
         out.probe("exact repeat of a job", any(jobs[a] == jobs[b] for a in range(len(jobs)) for b in range(a + 1, len(jobs))))
         out.extra["header_classes"] = classes
         out.log(hist, len(out.violations))
